@@ -207,15 +207,14 @@ impl fmt::Display for Line {
 
 impl fmt::Display for Asm {
     fn fmt(&self, f: &mut fmt::Formatter) -> fmt::Result {
-        let header = "#! mrasm".pad_to_width(COMMENT_WIDTH);
+        // The header allows at most one blank before its comment and every
+        // line separator starts a new line, so: no padding, no trailing newline.
+        write!(f, "#! mrasm")?;
         if let Some(comment) = &self.comment_after_shebang {
-            let line = format!("{}; {}", header, comment);
-            writeln!(f, "{}", line)?;
-        } else {
-            writeln!(f, "{}", header)?;
+            write!(f, " ; {}", comment)?;
         }
         for line in &self.lines {
-            writeln!(f, "{}", line)?;
+            write!(f, "\n{}", line)?;
         }
         Ok(())
     }
